@@ -182,7 +182,13 @@ where
     unsafe fn span(eoi: &mut Self::Cache, range: Range<&Self::Cursor>) -> Self::Span {
         match range.start.0.clone().next() {
             Some((_, s)) => {
-                let end = range.end.2.clone().unwrap_or_else(|| eoi.end());
+                // A range that covers no tokens gets an empty span at the start of the next token (rather than one
+                // running from there to the end of the *previous* token, or to the end of the input)
+                let end = if range.start.1 == range.end.1 {
+                    s.start()
+                } else {
+                    range.end.2.clone().unwrap_or_else(|| eoi.end())
+                };
                 S::new(eoi.context(), s.start()..end)
             }
             None => S::new(eoi.context(), eoi.end()..eoi.end()),
